@@ -60,6 +60,8 @@ def main():
         W = "/tmp/wt/r7-%s" % pid  # round 7
     if any(m in ("m22", "m23", "m24") for m in ms):
         W = "/tmp/wt/r8-%s" % pid  # round 8
+    if any(m in ("m25", "m26", "m27") for m in ms):
+        W = "/tmp/wt/r9-%s" % pid  # round 9
     take_slot()
     for m in ms:
         out = os.path.join(W, "_out", m)
